@@ -26,7 +26,7 @@ func checkC18(c *Ctx, r *Report) {
 		r.unresolved("C18.load", "root module", err.Error())
 		return
 	}
-	r.rule("C18.L1", "etcd writes keyed by leaseKey are conditional (Txn with If on the key)", 3)
+	r.rule("C18.L1", "etcd writes keyed by leaseKey are conditional (Txn with If on the key)", 1)
 	r.rule("C18.L2", "m.owned[resource] = … only after txnResp.Succeeded ∧ m.session == session", 2)
 	r.rule("C18.L3", "owned is reset in the same critical section as every session = nil; writer tables of owned / session", 7)
 
@@ -40,7 +40,7 @@ func checkC18(c *Ctx, r *Report) {
 		if top.Signature.Recv() == nil || !strings.HasSuffix(top.Signature.Recv().Type().String(), "metadata.LeaseManager") {
 			continue
 		}
-		n += etcdConditionalWrites(m, r, "C18.L1", fn, []string{lmPrefix + "leaseKey"}, "lease key")
+		n += etcdConditionalWrites(m, r, "C18.L1", fn, []string{lmPrefix + "leaseKey", "field:LeaseManager.prefix"}, "lease key")
 	}
 	if n == 0 {
 		r.unresolved("C18.L1", "lease key writes", "none found")
